@@ -41,14 +41,14 @@ RULE = ("every template (quick 8 messages per template, thorough 16 x 16; x5 for
         ". Round-5 additions: the replacement table is the caller's - value tables, a table whose values are all zero-like, a table of callables (printed with values, parsed with callables); a directed law for what [[NAME]] stands for (table value, called if callable, whatever its truthiness; undefined names are errors)"
         ". Round 7: doubles that are exact singles; pairs of messages carrying the same payload under different switching siblings printed alternately from short-lived objects"
         ". Round 8: one long-lived message shown, edited in place field by field (values of another message of its type, neighbours kept), shown again; payloads whose trailing string lacks its terminator; texts produced before a templates reload - successful, failing at once, failing a third of the way in (injected at importlib.reload) - parsed afterwards"
-        ". Round 9: only the switching sibling of a packed field is changed on a live message (every value its serializer knows); pairs found by search - bytes that are canonical under sibling value A and readable but not canonical under B - shown under A, then B (same object and a fresh message)")
+        ". Round 9: only the switching sibling of a packed field is changed on a live message (every value its serializer knows); pairs found by search - bytes that are canonical under sibling value A and readable but not canonical under B - shown under A, then B (same object and a fresh message). Round 11: flag (BOOL) fields also hold the bytes that are neither 0 nor 1 (2, 255, random), shown with the template at hand")
 ASSUMPTIONS = [
     "packet id, acks and extra header bytes are not part of the text: compared bodies use the same header fields",
     "float values are NaN-free (as C01); NaN has no stable textual form",
     "safe-mode monitor: any `exec` audit event, any call of subfield_eval or of a canary while "
     "from_human_string(safe=True) is on the stack is an evaluation",
 ]
-MUST_REACH = {"directed_context_pairs": 4, "packed_fields_shown_again_under_another_sibling": 200, "messages_shown_edited_shown_again": 150, "unterminated_registered_payloads": 20, "failed_template_reloads_provoked": 2, "earlier_texts_parsed_after_reload:syntax-error": 20, "earlier_texts_parsed_after_reload:dies-midway": 20, "earlier_texts_parsed_after_reload:good": 20, "roundtrips": 800, "templates_covered": 481, "beautified_roundtrips": 300, "packed_fields_printed": 200,
+MUST_REACH = {"flag_fields_holding_a_byte_other_than_0_or_1": 100, "directed_context_pairs": 4, "packed_fields_shown_again_under_another_sibling": 200, "messages_shown_edited_shown_again": 150, "unterminated_registered_payloads": 20, "failed_template_reloads_provoked": 2, "earlier_texts_parsed_after_reload:syntax-error": 20, "earlier_texts_parsed_after_reload:dies-midway": 20, "earlier_texts_parsed_after_reload:good": 20, "roundtrips": 800, "templates_covered": 481, "beautified_roundtrips": 300, "packed_fields_printed": 200,
               "multiline_strings": 30, "replacement_hits": 30, "safe_fuzz_texts": 300, "safe_fuzz_rejected_eval": 50,
               "registered_payload_messages": 100, "same_bytes_two_contexts": 5, "damaged_registered_payloads": 5, "degenerate_registered_payloads": 5,
               "alternating_context_message_pairs": 5, "replacement_semantics_cases": 20, "replacement_semantics_falsy_values": 4, "replacement_hits_lazy_table": 3}
@@ -848,9 +848,12 @@ def run(ctx):
             if rng.random() < 0.1:
                 flags |= rng.randint(1, 15)
             spec = gen_msg.limit_for_zerocode(rng, tmpl, {"flags": flags, "p_extra": 0, "max_var_len": 300, "small_block": 8,
-                                                           "p_omit": 0.1})
+                                                           "p_omit": 0.1, "bool_bytes": True})
             spec["acks"] = []
             spec["extra"] = b""
+            if gen_msg.STATS["bool_bytes"]:
+                ctx.count("flag_fields_holding_a_byte_other_than_0_or_1", gen_msg.STATS["bool_bytes"])
+                gen_msg.STATS["bool_bytes"] = 0
             if inject_registered_payloads(rng, tmpl, spec):
                 ctx.count("registered_payload_messages")
             force_awkward_strings(rng, tmpl, spec)
